@@ -1,20 +1,31 @@
-"""C16 -- fitting and prediction design matrices are aligned and identifiable (DESIGN section 4, C16).
+"""C16 -- fitting and prediction design matrices are aligned and identifiable (DESIGN section 0.4 / 4, C16).
 
-prepare_data computes its column set from the data (get_dummies names, comprehensions over df.columns): the set of
-program variables depends on the input, which puts the function outside pyvc's executable subset; re-modelling it
-would be a hand-written look-alike.  The clauses about the CONTENT of the matrices are therefore checked by an
-exhaustive-small-scope bounded stand-in on the real class and are NOT counted as proved.  What IS proved (units
-re-used from C03/C05): the call sites hand the right rows to the right matrix (training / calibration /
-non-reporting slices are aligned with responses and weights), and in the no-covariate configuration the real
-Featurizer body is executed symbolically (design = intercept only)."""
+Proved (units `featurizer.<configuration>`): the REAL Featurizer (prepare_data with _expand_fixed_effects, _sort_features,
+_get_categories_for_fe; filter_to_active_features; generate_holdout_data) executed symbolically on ONE frame of
+ARBITRARILY MANY units with an arbitrary assignment of level names, reporting flags, categories and feature values.
+The column set of the matrices depends on the data; it becomes concrete on every path because the level names range
+over a finite universe declared by the harness (3 names for the first fixed effect, 2 for the second, plus 'other') and
+the interpreter branches on "does level v occur / is it observed in the fitting rows" (an obligation checks that the
+universe covers the column).  Per path every clause of the statement is an obligation: same columns in the same order
+in both matrices (intercept first, baseline margin terms next), exactly one observed level per effect absorbed, every
+fitted dummy non-constant on the fitting rows, fitted-or-absorbed <=> observed in fitting, level indicator for seen
+levels and the equal share 1/(k+1) for unseen ones, centring over all units, 'other' pooling, per-state copies exactly
+for the states with reporting units.  The bound of this proof is the NUMBER OF DISTINCT LEVEL NAMES per effect (a
+configuration bound, like the list of aggregates elsewhere), not the number of units.
+Also proved (units re-used from C03/C05): the call sites hand the right rows to the right matrix, and the no-covariate
+configuration.  Bounded companion (kept, not counted as proved): bounded/c16_featurizer.py runs the real class on real
+pandas over an exhaustively enumerated small scope, including name-prefix collisions of _get_categories_for_fe."""
 import contracts.C03 as C03
 from pyvc.api import UNITS
 
-LEVEL = "exploration"
-EXPLANATION = "bounded stand-in (exploration) for the matrix contents + proved call-site alignment obligations"
+LEVEL = "proof"
+EXPLANATION = "the real Featurizer executed symbolically for any number of units (level names from a finite universe: branching makes the data-dependent column set concrete per path); call-site alignment; a bounded companion on real pandas is kept"
 ASSUMPTIONS = [
-    "bounded scope: <= 2 fixed effects x 3 levels, <= 4 (quick) / 5 (thorough) units, all assignments; one continuous feature pair; states_for_separate_model with 2 states",
-    "the proved obligations (call-site slicing) use the Featurizer contract 'row- and order-preserving'",
+    "configuration bound of the proof: <= 2 fixed effects, 3 + 2 distinct level names (plus 'other'), the listed selected-level lists / feature lists / two separate-model states; the number of units and the assignment are arbitrary",
+    "pandas contracts used: get_dummies(frame, columns, prefix) = one 0/1 column per occurring value, sorted; DataFrame.mean/sum(axis) column-wise; .loc[mask, cols] = c; astype(float); precondition: at least one fitting row (reporting & expected) -- the reporting-unit gate of C14",
+    "scale_features=True (division by the standard deviation) is not used by any estimator and is not covered",
+    "the call-site obligations (slicing) use the Featurizer contract 'row- and order-preserving', which the featurizer units prove (rows.both_matrices_keep_the_rows_and_their_order)",
+    "bounded companion: <= 2 fixed effects x 3 levels, <= 4 (quick) / 5 (thorough) units, all assignments",
 ]
 BOUNDED = [{"name": "design_matrices", "script": "c16_featurizer.py", "timeout": 3000}]
 
@@ -23,3 +34,177 @@ for _u in list(UNITS.get("C03", [])):
         UNITS.setdefault("C16", []).append(dict(_u, prop="C16", name="call_sites." + _u["name"]))
 for _u in list(UNITS.get("C05", [])):
     UNITS.setdefault("C16", []).append(dict(_u, prop="C16", name="no_covariates." + _u["name"]))
+
+
+# ---- the REAL Featurizer executed symbolically: any number of units, a finite universe of level names ------------------
+import itertools  # noqa: E402
+
+import z3  # noqa: E402
+
+from pyvc import frames  # noqa: E402
+from pyvc.api import unit  # noqa: E402
+from pyvc.values import V, real  # noqa: E402
+
+FEATQ = "elexmodel.handlers.data.Featurizer.Featurizer"
+LEVELS = {"fe1": ["a", "b", "c"], "fe2": ["x", "y"]}
+
+
+def _world(h, fes, features, states=()):
+    """ONE frame of arbitrarily many units: postal_code, reporting (0/1), unit_category, continuous features, and one
+    column per fixed effect whose values range over a FINITE set of level names (any assignment of levels to units)"""
+    root, fips = frames.unit_universe("units")
+    h.syms["fips_units"] = fips
+    h.ctx.assume(z3.And(*root.facts()))
+    u = root.u
+    I, R_, S = z3.IntSort(), z3.RealSort(), z3.StringSort()
+
+    def fn(name, sort):
+        f = z3.Function(name, I, sort)
+        h.syms[name] = f
+        return f
+
+    cols = {"postal_code": fn("postal_code", S)(u), "geographic_unit_fips": fips(u), "reporting": fn("reporting", I)(u), "unit_category": fn("unit_category", S)(u)}
+    h.forall_rows(root, z3.Or(cols["reporting"] == 0, cols["reporting"] == 1))
+    for f_ in features:
+        cols[f_] = fn(f_, R_)(u)
+    universe = {}
+    for fe in fes:
+        cols[fe] = fn(fe, S)(u)
+        h.forall_rows(root, z3.Or(*[cols[fe] == z3.StringVal(v) for v in LEVELS[fe]]))
+        universe[fe] = list(LEVELS[fe])
+    df = frames.base_frame(root, z3.BoolVal(True), cols, "geographic_unit_fips")
+    h.interp.level_universe = universe
+    # the reporting-unit gate (C14) guarantees fitting rows: some unit is reporting and expected
+    f0 = z3.Int("some_fitting_row")
+    h.syms["some_fitting_row"] = f0
+    at = lambda t_: z3.substitute(t_, (u, f0))  # noqa: E731
+    h.interp.ghost_rows = [f0]
+    h.requires("some_fitting_row", z3.And(f0 >= 0, f0 < root.n, at(cols["reporting"]) == 1, at(cols["unit_category"]) == z3.StringVal("expected")))
+    return root, df, cols
+
+
+def _featurizer_unit(name, fes, params, features, states=(), add_intercept=True, center=True, present=None):
+    fixed_effects = {fe: params[fe] for fe in fes} if params else list(fes)
+
+    @unit("C16", f"featurizer.{name}", fns=[f"{FEATQ}.prepare_data", f"{FEATQ}._expand_fixed_effects", f"{FEATQ}._sort_features", f"{FEATQ}._get_categories_for_fe", f"{FEATQ}.filter_to_active_features", f"{FEATQ}.generate_holdout_data"])
+    def feat(h):
+        """the real Featurizer on a frame of ANY number of units (levels range over a finite universe of names)"""
+        from pyvc import source
+        from pyvc.interp import ClassRef
+
+        root, df, cols = _world(h, fes, features, states)
+        if present is not None:
+            # case split (for parallelism only): exactly the level names in `present` occur in the first fixed effect; the
+            # cases are registered for EVERY non-empty subset of its universe, so together they cover every frame
+            fe0 = fes[0]
+            for v in LEVELS[fe0]:
+                if v in present:
+                    w = z3.Int(f"row_with_{fe0}_{v}")
+                    h.requires(f"present.{v}", z3.And(w >= 0, w < root.n, z3.substitute(cols[fe0], (root.u, w)) == z3.StringVal(v)))
+                    h.interp.ghost_rows = list(h.interp.ghost_rows) + [w]
+                else:
+                    h.forall_rows(root, cols[fe0] != z3.StringVal(v))
+        h.default_replay = lambda ev: {"target": "verif_replays:featurizer_battery_replay", "args": [list(fes), params, list(features), list(states)], "check": "result['exc'] is None and result['ok']"}
+        parts = FEATQ.split(".")
+        mod = source.module(".".join(parts[:-1]))
+        fz = ClassRef(mod, mod.classes[parts[-1]]).instantiate(h.interp, [list(features), fixed_effects], {"states_for_separate_model": list(states)})
+        kind, x_all = h.call_method(fz, "prepare_data", df, center_features=center, scale_features=False, add_intercept=add_intercept)
+        if kind == "raise":
+            return h.fail("prepare_data.no_raise", f"raised {x_all}")
+        A = fz.attrs
+        complete, active = list(A["complete_features"]), list(A["active_features"])
+        expanded, active_fe = list(A["expanded_fixed_effects"]), list(A["active_fixed_effects"])
+        dropped = list(A.get("intercept_column", [])) if fes and add_intercept else []
+        u = root.u
+        facts = z3.And(*root.facts())
+        fitting = z3.And(cols["reporting"] == 1, cols["unit_category"] == z3.StringVal("expected"))
+
+        def pooled(fe):  # the level after pooling the non-selected ones
+            if params and "all" not in params[fe] and params[fe] != "all":
+                return z3.If(z3.Or(*[cols[fe] == z3.StringVal(v) for v in params[fe]]), cols[fe], z3.StringVal("other"))
+            return cols[fe]
+
+        def rank(name):
+            return 0 if name.startswith("intercept") else 1 if name.startswith("baseline_normalized_margin") else 2
+
+        # ---- A/B: column order, identical in the fitting and the prediction matrix
+        h.ensures("columns.prepared_matrix_has_exactly_the_complete_features", list(x_all.cols) == complete)
+        h.ensures("columns.intercept_first_then_baseline_margin_terms", all(rank(a) <= rank(b) for a, b in zip(complete, complete[1:])) and all(rank(a) <= rank(b) for a, b in zip(active, active[1:])) and (not add_intercept or (complete[:1] == ["intercept"] and active[:1] == ["intercept"])), why=str(complete))
+        h.ensures("columns.active_is_a_subsequence_of_complete", [c for c in complete if c in active] == active)
+        kind, fit = h.call_method(fz, "filter_to_active_features", x_all)
+        kind2, hold = h.call_method(fz, "generate_holdout_data", x_all)
+        if kind == "raise" or kind2 == "raise":
+            return h.fail("matrices.no_raise", f"raised {fit if kind == 'raise' else hold}")
+        h.ensures("columns.fit_and_prediction_matrices_have_the_same_columns_in_the_same_order", list(fit.cols) == active and list(hold.cols) == active, why=f"{list(fit.cols)} / {list(hold.cols)} / {active}")
+        h.ensures("rows.both_matrices_keep_the_rows_and_their_order", frames.same_rows(fit.axis, df.axis) and frames.same_rows(hold.axis, df.axis))
+        # ---- per fixed effect
+        wit = h.interp.__dict__.get("sum_witnesses", {})
+        for fe in fes:
+            cands = sorted(set(LEVELS[fe]) | {"other"})
+            lv = pooled(fe)
+            mine = [c for c in active_fe if c.startswith(fe + "_")]
+            mine_dropped = [c for c in dropped if c.startswith(fe + "_")]
+            k = len(mine)
+            if add_intercept:
+                h.ensures(f"{fe}.exactly_one_level_absorbed_by_the_intercept", len(mine_dropped) == 1 and mine_dropped[0] not in mine and mine_dropped[0] not in complete)
+            seen = set(mine) | set(mine_dropped)
+            h.ensures(f"{fe}.dummy_columns_only_for_selected_levels_or_other", all(c[len(fe) + 1 :] in cands and (not params or "all" in params[fe] or c[len(fe) + 1 :] in list(params[fe]) + ["other"]) for c in expanded if c.startswith(fe + "_")))
+            for v in cands:
+                name = f"{fe}_{v}"
+                is_v = lv == z3.StringVal(v)
+                # observed in the fitting rows  <=>  fitted column or the absorbed one
+                h.ensures(f"{fe}.{v}.a_level_observed_in_fitting_is_fitted_or_absorbed", z3.Implies(z3.And(facts, fitting, is_v), z3.BoolVal(name in seen)))
+                if name in seen:
+                    ws = [w for (axn, cn), (w, d) in wit.items() if cn == name]
+                    some = z3.Or(*[z3.And(w >= 0, w < root.n, z3.substitute(z3.And(fitting, is_v), (u, w))) for w in ws]) if ws else z3.BoolVal(False)
+                    h.ensures(f"{fe}.{v}.a_fitted_or_absorbed_level_is_observed_in_fitting", some)
+                if name in mine:
+                    # non-constant on the fitting rows: a fitting row with 1 (above) and one with 0 (a row of the absorbed level)
+                    d0 = mine_dropped[0][len(fe) + 1 :] if mine_dropped else None
+                    if d0 is not None:
+                        ws0 = [w for (axn, cn), (w, d) in wit.items() if cn == mine_dropped[0]]
+                        zero_row = z3.Or(*[z3.And(w >= 0, w < root.n, z3.substitute(z3.And(fitting, z3.Not(is_v)), (u, w))) for w in ws0]) if ws0 else z3.BoolVal(False)
+                        h.ensures(f"{fe}.{v}.fitted_column_is_not_constant_on_the_fitting_rows", zero_row)
+                    fc, hc = fit.col(name), hold.col(name)
+                    h.ensures(f"{fe}.{v}.fit_matrix_holds_the_level_indicator", z3.Implies(facts, real(fc.t) == z3.If(is_v, z3.RealVal(1), z3.RealVal(0))))
+                    seen_level = z3.Or(*[lv == z3.StringVal(c[len(fe) + 1 :]) for c in seen])
+                    want = z3.If(seen_level, z3.If(is_v, z3.RealVal(1), z3.RealVal(0)), z3.RealVal(1) / (k + 1))
+                    h.ensures(f"{fe}.{v}.prediction_matrix_indicator_or_equal_share", z3.Implies(facts, z3.And(real(hc.t) == want, z3.Not(hc.nan) if hc.nan is not None else z3.BoolVal(True))))
+        # ---- continuous features and the intercept
+        from pyvc import sums
+
+        for f_ in features:
+            tot, _d = sums.formal_sum_dom(h.ctx, root, z3.BoolVal(True), cols[f_])
+            want = cols[f_] - tot / z3.ToReal(root.n) if center and not states else None
+            if want is not None:
+                for nm, m in (("fit", fit), ("prediction", hold)):
+                    h.ensures(f"{f_}.{nm}_matrix_holds_the_feature_centred_over_all_units", z3.Implies(facts, real(m.col(f_).t) == want))
+        # ---- per-state feature copies: only (and exactly) for the states that have reporting units
+        tests = h.interp.__dict__.get("unique_tests", [])
+        for st in states:
+            rep_in_state = z3.And(cols["reporting"] == 1, cols["postal_code"] == z3.StringVal(st))
+            for f_ in features:
+                name = f"{f_}_{st}"
+                made = name in complete
+                h.ensures(f"{name}.a_state_with_a_reporting_unit_gets_its_copy", z3.Implies(z3.And(facts, rep_in_state), z3.BoolVal(made)))
+                if made:
+                    ws = [r.meta[1]["witness"] for (x, r) in tests if x == st]
+                    some = z3.Or(*[z3.And(w >= 0, w < root.n, z3.substitute(rep_in_state, (u, w))) for w in ws]) if ws else z3.BoolVal(False)
+                    h.ensures(f"{name}.a_copy_exists_only_for_a_state_with_a_reporting_unit", some)
+                    want = z3.If(cols["postal_code"] == z3.StringVal(st), cols[f_], z3.RealVal(0))
+                    h.ensures(f"{name}.copy_holds_the_feature_inside_the_state_and_zero_outside", z3.Implies(facts, z3.And(real(fit.col(name).t) == want, real(hold.col(name).t) == want)))
+        if add_intercept and not states:
+            h.ensures("intercept.is_one_everywhere", z3.Implies(facts, z3.And(real(fit.col("intercept").t) == 1, real(hold.col("intercept").t) == 1)))
+
+    return feat
+
+
+_featurizer_unit("one_effect", ["fe1"], None, ["f1"])
+_featurizer_unit("one_effect.no_features", ["fe1"], None, [])
+_featurizer_unit("one_effect.selected_levels", ["fe1"], {"fe1": ["a"]}, ["f1"])
+_featurizer_unit("one_effect.selected_levels_2", ["fe1"], {"fe1": ["b", "c"]}, [])
+for _r in range(1, len(LEVELS["fe1"]) + 1):
+    for _sub in itertools.combinations(LEVELS["fe1"], _r):
+        _featurizer_unit("two_effects.first_effect_levels_" + "".join(_sub), ["fe1", "fe2"], None, ["baseline_normalized_margin", "f1"], present=_sub)
+_featurizer_unit("no_effects", [], None, ["f1", "baseline_normalized_margin"])
+_featurizer_unit("separate_states", [], None, ["f1"], states=("AA", "BB"))
